@@ -70,10 +70,13 @@ def main():
         checks = sys.argv[sys.argv.index("--checks") + 1].split(",")
     only = [a for a in sys.argv[1:] if re.match(r"C\d\d", a) and "," not in a]
     items = []
+    series = "b"
+    if "--series" in sys.argv:
+        series = sys.argv[sys.argv.index("--series") + 1]          # b: first round (/tmp/ben_Cxx), c: incidental-detail round (/tmp/ben2_Cxx)
     for i in range(1, 21):
         for k in (1, 2, 3, 4):
-            bid = "C%02d_b%d" % (i, k)
-            src = "/tmp/ben_C%02d/benign/b%d" % (i, k)
+            bid = "C%02d_%s%d" % (i, series, k)
+            src = ("/tmp/ben_C%02d/benign/b%d" if series == "b" else "/tmp/ben2_C%02d/benign/b%d") % (i, k)
             kept = os.path.join(V, "benign", bid)
             if not os.path.exists(os.path.join(src, "patch.diff")) and os.path.exists(os.path.join(kept, "patch.diff")):
                 src = kept
